@@ -102,6 +102,24 @@ mod harness {
         assert!(act != Action::DeleteA && act != Action::DeleteB);
     }
 
+    /// C20: an encoded header begins with `COPA`, carries version 1 and the little-endian payload length, type code and flags
+    /// (bit-precise on the compiled library, incl. the real PROTOCOL_MAGIC constant and the real to_le_bytes)
+    #[kani::proof]
+    fn c20_encode_layout() {
+        use copia::{FrameHeader, MessageType};
+        let code: u8 = kani::any();
+        kani::assume(1 <= code && code <= 7);
+        let mt = match code { 1 => MessageType::SignatureRequest, 2 => MessageType::SignatureResponse, 3 => MessageType::DeltaData,
+                              4 => MessageType::Ack, 5 => MessageType::Error, 6 => MessageType::Ping, _ => MessageType::Pong };
+        let len: u32 = kani::any();
+        let h = FrameHeader::new(mt, len);
+        let b = h.encode();
+        assert!(b[0] == b'C' && b[1] == b'O' && b[2] == b'P' && b[3] == b'A');
+        assert!(u32::from_le_bytes([b[4], b[5], b[6], b[7]]) == len);
+        assert!(b[8] == code && b[9] == 1 && b[10] == 0 && b[11] == 0);
+        kani::cover!(len > 16 * 1024 * 1024);
+    }
+
     #[kani::proof]
     fn c19_needs_transfer_is_quick_check() {
         let s = FileMeta { size: kani::any(), mtime: kani::any() };
